@@ -268,10 +268,19 @@ impl Checker for C11Checker {
                     }
                 }
             },
-            Op::SetNavNode(_, _) => {
+            Op::SetNavNode(idref, off) => {
                 let before = self.cur.clone();
                 if let Some(act) = self.invariants(s, "set_navigation_node") {
                     if res.is_ok() {
+                        // an accepted request puts the position exactly where it was asked to be (node and character offset)
+                        let mut want = (s.resolve_id(idref), *off);
+                        if matches!(idref, IdRef::Nav) {
+                            want.0 = act.0.clone(); // "the node navigation rests on": only the offset is a request
+                        }
+                        if act != want {
+                            s.violation("set-node-not-honoured", "set_navigation_node returned Ok but the position is not the requested node and offset".into(), format!("requested {:?}, position is {:?}", want, act));
+                            return;
+                        }
                         self.undo.clear();
                         self.undo_unknown = false;
                         self.cur = Some(act);
@@ -468,6 +477,22 @@ pub fn directed() -> Vec<Trace> {
         }
     }
     v.push(mk("failed-set-mathml-keeps-expression", vec![set(8), cmd("ZoomIn"), cmd("SetPlacemarker1"), Step::Call(Op::SetMathml(ExprRef::Bad(2))), cmd("MoveNext"), cmd("MoveTo1"), cmd("ReadCurrent")]));
+    // the node navigation already rests on, asked for again with other character offsets (and through every mode)
+    for mode in pools::NAV_MODES {
+        let mut steps = vec![Step::Call(Op::SetPref("NavMode".into(), mode.to_string())), set(21)];
+        for id in ["r", "b"] {
+            for off in [0usize, 1, 2, 3, 1, 0] {
+                steps.push(Step::Call(Op::SetNavNode(IdRef::Lit(id.into()), off)));
+            }
+            steps.push(cmd("MoveNext"));
+            for off in [1usize, 0, 2] {
+                steps.push(Step::Call(Op::SetNavNode(IdRef::Nav, off)));
+            }
+            steps.push(cmd("MovePrevious"));
+            steps.push(cmd("MoveLastLocation"));
+        }
+        v.push(mk(&format!("set-navigation-node-same-node-other-offset-{}", mode), steps));
+    }
     v.push(mk("set-navigation-node", vec![set(21), Step::Call(Op::SetNavNode(IdRef::Lit("b".into()), 0)), cmd("MovePrevious"), cmd("MoveLastLocation"), Step::Call(Op::SetNavNode(IdRef::Lit("r".into()), 3)), cmd("ReadCurrent"), Step::Call(Op::SetNavNode(IdRef::Stale(0), 0))]));
     v
 }
